@@ -67,6 +67,8 @@ func caseFromSx(v sx.V) (Case, error) {
 		return crashCaseFromSx(v), nil
 	case "coord":
 		return coordCaseFromSx(v), nil
+	case "aecache":
+		return aeCaseFromSx(v), nil
 	}
 	return nil, fmt.Errorf("unknown family %q", v.N(0).Str())
 }
@@ -110,7 +112,7 @@ func generate(prop, tier string, rng *Rng) []Case {
 	case "C15":
 		return append(genRangeUnit(tier), genC15Hist(tier, rng)...)
 	case "C06":
-		return append(genRecompUnit(), genRecompE2E(tier, rng)...)
+		return append(append(genRecompUnit(), genRecompE2E(tier, rng)...), genAeCache(tier, rng)...)
 	case "C07":
 		return append(genMetaUnit(tier, rng), genC07Hist(tier, rng)...)
 	case "C10":
